@@ -42,11 +42,12 @@ TReset ==
   /\ hpos' = [c \in Conns |-> 0] /\ hfail' = [c \in Conns |-> FALSE] /\ hc' = [c \in Conns |-> FALSE]
   /\ out' = [c \in Conns |-> <<>>] /\ disp' = [c \in Conns |-> <<>>]
   /\ hlog' = [c \in Conns |-> <<>>] /\ cut' = [c \in Conns |-> <<>>]
-  /\ active' = Cardinality(Conns) /\ lost' = [c \in Conns |-> 0]
+  /\ active' = Cardinality(Conns) /\ lost' = [c \in Conns |-> 0] /\ cdone' = [c \in Conns |-> FALSE]
   /\ seen' = [c \in Conns |-> 0]
   /\ pend' = [c \in Conns |-> FALSE]
 
 TClientWrite == /\ Ev("CW") /\ ClientWrite(E.c) /\ scen[E.c].segs[cseg[E.c] + 1] = E.n /\ Keep /\ KeepP
+TClientClosed == /\ Ev("CX") /\ ClientClosed(E.c) /\ Keep /\ KeepP
 TClientEnd   == /\ Ev("CE") /\ ClientEnd(E.c) /\ scen[E.c].endhow = E.how /\ Keep /\ KeepP
 
 TDispatch ==
@@ -109,7 +110,7 @@ Silent ==
        \/ pend[c] /\ HStep(c) /\ pend' = [pend EXCEPT ![c] = FALSE]
   /\ UNCHANGED <<l, seen>>
 
-TraceNext == TReset \/ TClientWrite \/ TClientEnd \/ TDispatch \/ TReplyStart \/ TReplyEnd
+TraceNext == TReset \/ TClientWrite \/ TClientEnd \/ TClientClosed \/ TDispatch \/ TReplyStart \/ TReplyEnd
              \/ THandlerReturn \/ TClientRecv \/ TClientEOF \/ TActive \/ Silent
 
 TraceSpec == TraceInit /\ [][TraceNext]_tvars
@@ -125,5 +126,5 @@ TraceAccepted ==
   ELSE /\ PrintT(<<"TRACE-REJECTED at line", TLCGet(1), "of", Len(TraceLog)>>)
        /\ IF TLCGet(1) <= Len(TraceLog) THEN PrintT(<<"UNMATCHED", ToJson(TraceLog[TLCGet(1)])>>) ELSE TRUE
        /\ FALSE
-TView == <<scen, wire, rbuf, cseg, peer, pc, cur, hpos, hfail, hc, out, disp, hlog, active, lost, l, seen, pend>>
+TView == <<scen, wire, rbuf, cseg, peer, pc, cur, hpos, hfail, hc, out, disp, hlog, active, lost, cdone, l, seen, pend>>
 =============================================================================
